@@ -193,6 +193,37 @@ func probeReuse(a reuseArg) (string, string) {
 	return "", ""
 }
 
+// dense histories: one valid date decoded first, then all 65,536 (month, day) byte pairs of a year, each judged
+type denseArg struct {
+	FY int64 `json:"first_year"`
+	FM int   `json:"first_month"`
+	FD int   `json:"first_day"`
+	SY int64 `json:"second_year"`
+}
+
+func probeDense(a denseArg) (string, string) {
+	first := refEncode(a.FY, a.FM, a.FD)
+	buf := refEncode(a.SY, 0, 0)
+	for mb := 0; mb < 256; mb++ {
+		for db := 0; db < 256; db++ {
+			var d1, d2 date.Date
+			_ = d1.UnmarshalBinary(first)
+			buf[5], buf[6] = byte(mb), byte(db)
+			err := d2.UnmarshalBinary(buf)
+			real := oracle.RealDate(a.SY, mb, db)
+			if real != (err == nil) {
+				return "after_previous_call:decode", fmt.Sprintf("after decoding %04d-%02d-%02d, the bytes %x (month byte %d, day byte %d) give %v, %v; real date = %v", a.FY, a.FM, a.FD, buf, mb, db, d2, err, real)
+			}
+			if err == nil {
+				if y, m, d := d2.Date(); int64(y) != a.SY || int(m) != mb || d != db {
+					return "after_previous_call:decode", fmt.Sprintf("after decoding %04d-%02d-%02d, the bytes %x decode to %d-%d-%d", a.FY, a.FM, a.FD, buf, y, m, d)
+				}
+			}
+		}
+	}
+	return "", ""
+}
+
 func main() {
 	mc.Main("C11", "encode side: every real date of the stated year sets; decode side: complete grids of byte strings (all month/day byte pairs, all version bytes, all lengths 0..16, year-byte cross product); "+
 		"non-trivial = a 7-byte version-1 string (whether or not it names a real date)", func(r *mc.Run) {
@@ -204,6 +235,7 @@ func main() {
 		r.Assume("after a failed decode the receiver must not hold an impossible date (whether it is otherwise untouched is C17's business)")
 
 		pr := mc.NewProbe(r, "buffer_reuse", nil, probeReuse)
+		pd := mc.NewProbe(r, "dense_history", nil, probeDense)
 		r.Phase("serial: all histories of two decodes from one reused buffer over 14 byte strings", "complete for depth 2 over the listed inputs", func() {
 			var ins [][]byte
 			for _, t := range [][3]int64{{2024, 2, 29}, {2023, 2, 28}, {1, 1, 1}, {-44, 3, 15}, {9999, 12, 31}} {
@@ -216,6 +248,44 @@ func main() {
 						w.Point()
 						pr.Do(w, reuseArg{mc.Bin(a), mc.Bin(b)})
 					}
+				}
+			})
+		})
+		one := func(w *mc.W, data []byte) {
+			cls, _, _, _ := expectDec(data)
+			w.Point()
+			w.Outcome(expNames[cls])
+			if len(data) == 7 && data[0] == 1 {
+				w.NonTrivial()
+			}
+			dec.Do(w, decArg{Data: mc.Bin(data)})
+		}
+		r.Phase("serial: every valid date of 2022 and 2023 (quick: of January-March and December) decoded first, then each of the 65,536 (month byte, day byte) pairs of year 2022 decoded (the second decode is judged)", "complete for depth 2 over the two years x the byte grid", func() {
+			r.Serial(func(w *mc.W) {
+				for _, fy := range []int64{2022, 2023} {
+					for m := 1; m <= 12; m++ {
+						if r.Quick() && m > 3 && m != 12 { // quick: January-March and December as first decode; thorough: every day
+							continue
+						}
+						for d := 1; d <= oracle.DaysIn(fy, m); d++ {
+							w.Points(65536)
+							pd.Do(w, denseArg{fy, m, d, 2022})
+						}
+					}
+				}
+			})
+		})
+		r.Phase("decode: lengths 17..700 and 65536+7, 1<<20 with a valid 7-byte prefix", "complete grid", func() {
+			r.Serial(func(w *mc.W) {
+				for l := 17; l <= 700; l++ {
+					buf := make([]byte, l)
+					copy(buf, refEncode(2022, 8, 7))
+					one(w, buf)
+				}
+				for _, l := range []int{65536 + 7, 65536, 1 << 20, 1<<20 + 7, 1<<24 + 7} {
+					buf := make([]byte, l)
+					copy(buf, refEncode(2022, 8, 7))
+					one(w, buf)
 				}
 			})
 		})
@@ -261,15 +331,6 @@ func main() {
 		})
 		r.Sample("encode", encArg{Y: -999999999, M: 2, D: 28})
 
-		one := func(w *mc.W, data []byte) {
-			cls, _, _, _ := expectDec(data)
-			w.Point()
-			w.Outcome(expNames[cls])
-			if len(data) == 7 && data[0] == 1 {
-				w.NonTrivial()
-			}
-			dec.Do(w, decArg{Data: mc.Bin(data)})
-		}
 		gridYears := []int64{2022, 2024, 1900, 2000, 0, 1, -1, 9999, 999999999, -999999999, 10000, 4, -4, -96, -100, -196, -200, -400, -1900, -2000, 2100, 999999996, -999999996, 2147483647, -2147483648}
 		r.Phase(fmt.Sprintf("decode: %d years x all 65,536 (month byte, day byte) pairs", len(gridYears)), "complete grid", func() {
 			r.Parallel(int64(len(gridYears))*256, 4, func(w *mc.W, i int64) {
